@@ -77,6 +77,9 @@ func trace(q req) any {
 	for h := 0; left > 0; h++ {
 		dom := []int{12, 40, 160, 400}[h%4]
 		maxLen := []int{3, 6, 2, 3}[rnd.Intn(4)]
+		if dom == 400 { // many small islands: more than MaxAckSet ranges
+			maxLen = 1 + rnd.Intn(2)
+		}
 		var off uint32
 		lo := 0
 		if h%5 == 4 { // numbers just below 2^32; the model sees them minus off
@@ -90,6 +93,9 @@ func trace(q req) any {
 			return v
 		}
 		hl := 40 + rnd.Intn(dom)
+		if dom == 400 {
+			hl = 250 + rnd.Intn(200)
+		}
 		if hl > left {
 			hl = left
 		}
@@ -109,14 +115,18 @@ func trace(q req) any {
 			switch c := rnd.Intn(10); {
 			case c < 6:
 				f := lo + rnd.Intn(dom-lo)
-				if rnd.Intn(8) == 0 {
+				if rnd.Intn(8) == 0 && (dom != 400 || rnd.Intn(4) == 0) {
 					f = lo // touches the prefix
 				}
-				if p, _ := udp.VAcksState(a); rnd.Intn(6) == 0 && off == 0 {
+				if p, _ := udp.VAcksState(a); rnd.Intn(6) == 0 && off == 0 && (dom != 400 || rnd.Intn(4) == 0) {
 					f = int(p) + rnd.Intn(3) // at / just above the prefix
 				}
 				t := f + rnd.Intn(maxLen)
-				if rnd.Intn(25) == 0 {
+				wideOdds := 25
+				if dom == 400 {
+					wideOdds = 300
+				}
+				if rnd.Intn(wideOdds) == 0 {
 					t = f + rnd.Intn(dom/2+1) // a wide range swallowing many
 				}
 				if t >= dom+lo {
